@@ -1522,7 +1522,14 @@ def with_defer_constraints(session: Session) -> Iterator:
     if session.get_bind().dialect.name == "sqlite":
         session.execute(text("PRAGMA defer_foreign_keys=ON"))
         session.execute(text("PRAGMA foreign_keys=OFF"))
-        yield
+        try:
+            yield
+        except BaseException:
+            # Do not leave constraint checking disabled on this connection. The pragma only
+            # takes effect outside of a transaction, so the failed one is rolled back first.
+            session.rollback()
+            session.execute(text("PRAGMA foreign_keys=ON"))
+            raise
         session.execute(text("PRAGMA defer_foreign_keys=OFF"))
         session.execute(text("PRAGMA foreign_keys=ON"))
     else:
@@ -2766,9 +2773,10 @@ class RedunBackendDb(RedunBackend):
 
         with with_defer_constraints(self.session):
             if not job.parent_job:
-                # Record top-level job for the execution.
-                current_execution = self._executions.pop(job.execution.id)
-                assert current_execution.job_id is None
+                # Record top-level job for the execution. The pending execution is only
+                # forgotten after the commit below, so that a retry finds it again.
+                current_execution = self._executions[job.execution.id]
+                assert current_execution.job_id in (None, job.id)
                 current_execution.job_id = job.id
                 self.session.add(current_execution)
 
@@ -2782,8 +2790,13 @@ class RedunBackendDb(RedunBackend):
                 parent_id=(job.parent_job.id if job.parent_job else None),
                 execution_id=job.execution.id,
             )
-            self.session.add(db_job)
+            # Merge instead of add, so that a retry after a commit that did succeed updates the
+            # existing row instead of inserting it a second time.
+            db_job = self.session.merge(db_job)
             self.session.commit()
+
+        if not job.parent_job:
+            self._executions.pop(job.execution.id, None)
 
         return db_job
 
